@@ -1018,6 +1018,32 @@ def check_single_event(hyps, goal, model):
 # --------------------------------------------------------------------------------------
 
 
+def _with_margin(e, delta):
+    """a formula that implies e, with every order atom of its negation normal form tightened by delta (l < r becomes l + delta <= r): a
+    model of it satisfies e robustly, away from the ties at which a numeric re-check of a solver model is inconclusive"""
+    e = sp.to_nnf(e, simplify=False) if isinstance(e, sp.logic.boolalg.BooleanFunction) else e
+    if isinstance(e, (sp.And, sp.Or)):
+        return e.func(*[_with_margin(a, delta) for a in e.args])
+    if isinstance(e, sp.Not):
+        a = e.args[0]
+        if isinstance(a, (sp.Lt, sp.Le)):
+            return sp.Ge(a.lhs, a.rhs + delta)
+        if isinstance(a, (sp.Gt, sp.Ge)):
+            return sp.Le(a.lhs + delta, a.rhs)
+        if isinstance(a, sp.Eq):
+            return sp.Or(sp.Le(a.lhs + delta, a.rhs), sp.Ge(a.lhs, a.rhs + delta))
+        if isinstance(a, sp.Ne):
+            return sp.Eq(a.lhs, a.rhs)
+        return e
+    if isinstance(e, (sp.Lt, sp.Le)):
+        return sp.Le(e.lhs + delta, e.rhs)
+    if isinstance(e, (sp.Gt, sp.Ge)):
+        return sp.Ge(e.lhs, e.rhs + delta)
+    if isinstance(e, sp.Ne):
+        return sp.Or(sp.Le(e.lhs + delta, e.rhs), sp.Ge(e.lhs, e.rhs + delta))
+    return e
+
+
 def prove(hyps, goal, boxes=None, seed=0, use_cvc5=False, sigma=True, timeout_ms=None) -> Result:
     """decide valid(hyps => goal) over the reals.
     proved  : by sympy normal form, z3 or cvc5
@@ -1065,6 +1091,16 @@ def prove(hyps, goal, boxes=None, seed=0, use_cvc5=False, sigma=True, timeout_ms
         ok = check_model(hyps, goal, r.model, syms)
         if ok:
             return Result("refuted", "z3+mpmath", time.time() - t0, model=r.model)
+        # the solver's model may sit on a tie (x exactly at a bound) where the numeric re-check is inconclusive: ask for a model with a margin
+        for delta in (sp.Rational(1, 10**6), sp.Rational(1, 10**9)):
+            try:
+                hs = [_with_margin(h, delta) if not isinstance(h, sp.Eq) else h for h in hyps + extra]
+                ng = _with_margin(sp.Not(goal), delta)
+                r3 = z3_prove(hs, sp.Not(ng), timeout_ms)
+            except Exception:
+                break
+            if r3.status == "refuted" and r3.model and check_model(hyps, goal, r3.model, syms):
+                return Result("refuted", "z3(margin)+mpmath", time.time() - t0, model=r3.model)
     if sigma_terms(allx):
         for m in refs + ([r.model] if r.model else []):
             m2 = check_single_event(hyps, goal, m)
